@@ -2,22 +2,33 @@
 
 spec/persist/Persist.tla: durable state, transaction stack, live objects; every operation is the
 sequence of storage calls the code issues, one spec step per call, fates ok | error | crash.
-  1. exhaustive TLC run of the repaired model (all invariants, coverage),
+  1. exhaustive TLC runs of the repaired model (all invariants; coverage in the thorough tier),
   2. the deviations (unrepaired behaviours + two seeded mutants) must each still be caught by TLC -
      a model that no longer distinguishes them has lost its teeth (exit 2, never 1),
   3. PersistGen.tla writes one behaviour per transition class (state between operations, operation,
-     boundary, fate); harness/persist replays them on the real storage stack behind a proxy
-     any-store database (recorded call sequences are compared with the spec's programs; crash
-     images are reopened with the real constructors),
-  4. the same-handle retry of spacestorage.Create (a listed known finding),
+     boundary, fate, fault points of the two operations before); harness/persist replays them on the
+     real storage stack behind a proxy any-store database (recorded call sequences are compared with
+     the spec's programs; crash images are reopened with the real constructors),
+  4. the same-handle retry of spacestorage.Create (a listed known finding; end of TestReplay),
   5. PersistTrace.tla validates logs recorded from random, larger runs of the real code (3 trees, 9 changes,
-     3 ACL records, up to 3 faults per run); in the thorough tier corrupted logs must be rejected."""
+     3 ACL records, up to 3 faults per run); in the thorough tier corrupted logs must be rejected.
+The TLC jobs are independent and run side by side."""
+import glob
+import json
 import os
+import re
+import shutil
+import subprocess
+import threading
+import time
+from concurrent.futures import ThreadPoolExecutor
 
 LEVEL = "model_checking"
 
 DEVIATIONS = ["FIX_NamedResult", "FIX_AclWriteFirst", "FIX_DeferredReset", "FIX_LocalRollback", "FIX_DeleteAfter",
-              "DEV_HeadsOutsideTx", "DEV_SpaceTwoTx"]
+              "FIX_NotifyAfterCommit", "DEV_HeadsOutsideTx", "DEV_SpaceTwoTx"]
+
+_lock = threading.Lock()
 
 
 def broken(msg):
@@ -25,15 +36,74 @@ def broken(msg):
     return CheckBroken(msg)
 
 
-def record_and_validate(ctx, runs, selftest=False):
-    """code -> spec: a random driver records the storage calls, results and states of the real code;
-    PersistTrace.tla checks that the log is a behaviour of Persist and evaluates every invariant on it."""
-    import re
-    trace = os.path.join(ctx.scratch, "persist-trace-%d.ndjson" % len(ctx.cov["harness_runs"]))
-    rep = ctx.go_test("./persist", run="TestRecord$", env={"VERIF_TRACE_OUT": trace, "VERIF_RUNS": runs}, timeout=1500)
-    ctx.cov["trace_events_validated"] = ctx.cov.get("trace_events_validated", 0) + rep["extra"].get("trace_events", 0)
-    tv = ctx.tlc("persist", "PersistTrace", "PersistTrace.cfg", workers=1, env={"VERIF_TRACE": trace},
-                 timeout=2400, count=False, name="trace-validation")
+def ptlc(ctx, name, module, cfg, workers=1, env=None, timeout=1500, coverage=False, count=False, heap=None):
+    """ctx.tlc for jobs that run side by side (own scratch directory per job, bookkeeping under a lock)."""
+    from vf import TlcResult, parse_tlc, VERIF
+    src = os.path.join(VERIF, "spec", "persist")
+    wd = os.path.join(ctx.scratch, "ptlc-" + re.sub(r"[^A-Za-z0-9_.-]+", "_", name))
+    os.makedirs(wd)
+    for f in os.listdir(src):
+        if os.path.isfile(os.path.join(src, f)):
+            shutil.copy(os.path.join(src, f), wd)
+    for f in glob.glob(os.path.join(VERIF, "lib", "tla", "*.tla")):
+        shutil.copy(f, wd)
+    cmd = ["java", "-XX:+UseParallelGC", "-Xss64m"]
+    if heap:
+        cmd.append("-Xmx%s" % heap)
+    cmd += ["-cp", "/opt/veriftools/tla/tla2tools.jar:/opt/veriftools/tla/CommunityModules-deps.jar", "tlc2.TLC",
+            "-metadir", os.path.join(wd, "meta"), "-config", cfg, "-workers", str(workers)]
+    if coverage:
+        cmd += ["-coverage", "1"]
+    cmd.append(module)
+    e = dict(os.environ)
+    e.update({k: str(v) for k, v in (env or {}).items()})
+    res = TlcResult()
+    res.workdir = wd
+    t = time.time()
+    try:
+        p = subprocess.run(cmd, cwd=wd, env=e, stdout=subprocess.PIPE, stderr=subprocess.STDOUT, timeout=timeout,
+                           text=True, errors="replace")
+        res.exit, res.out = p.returncode, p.stdout
+    except subprocess.TimeoutExpired as ex:
+        res.timed_out, res.exit = True, -1
+        res.out = (ex.stdout or b"").decode("utf8", "replace") if isinstance(ex.stdout, bytes) else (ex.stdout or "")
+        subprocess.run(["pkill", "-f", wd], check=False)
+    res.wall = time.time() - t
+    parse_tlc(res.out, res)
+    run = {"name": name, "generated": res.generated, "distinct": res.distinct, "depth": res.depth,
+           "wall_s": round(res.wall, 2), "mode": "exhaustive", "error": res.error, "error_name": res.error_name,
+           "timed_out": res.timed_out}
+    if coverage:
+        run["uncovered_actions"] = res.uncovered_actions()
+        run["actions_covered"] = len([a for a, (d, g) in res.coverage.items() if g > 0])
+    with _lock:
+        ctx.cov["tlc_runs"].append(run)
+        if count:
+            ctx.cov["states"] += res.distinct
+            ctx.cov["transitions"] += res.generated
+        ctx.log("tlc %s: %d generated / %d distinct, depth %d, %.1fs, error=%s %s%s" % (
+            name, res.generated, res.distinct, res.depth, res.wall, res.error, res.error_name or "",
+            " TIMEOUT" if res.timed_out else ""))
+    return res
+
+
+def expect_ok(res, name, coverage=False):
+    if res.timed_out:
+        raise broken("TLC timed out: %s" % name)
+    if not res.ok:
+        raise broken("MODEL-ERROR: TLC reported %s %s on the specification alone (%s)\n%s" % (
+            res.error, res.error_name, name, "\n".join(res.out.splitlines()[-60:])))
+    if coverage:
+        unc = [a for a in res.uncovered_actions() if not a.startswith("Dev_")]
+        if unc:
+            raise broken("vacuous model run, actions never taken: %s" % unc)
+    return res
+
+
+def validate_trace(ctx, trace, runs, selftest):
+    """code -> spec: PersistTrace.tla checks that the recorded log is a behaviour of Persist and evaluates
+    every invariant on every observed state."""
+    tv = ptlc(ctx, "trace-validation", "PersistTrace", "PersistTrace.cfg", env={"VERIF_TRACE": trace}, timeout=2400)
     lines = open(trace).read().splitlines()
     if tv.timed_out or (tv.error and tv.error not in ("invariant", "other")):
         raise broken("trace validation did not run: %s\n%s" % (tv.error, tv.out[-3000:]))
@@ -43,10 +113,11 @@ def record_and_validate(ctx, runs, selftest=False):
         line = int(m[-1]) - 1 if m else -1
         opline = next((l for l in reversed(lines[:max(line, 0)]) if '"ev":"start"' in l), "?")
         kind = re.search(r'"kind":"(\w+)"', opline)
-        ctx.violation("trace-invariant:%s:%s" % (tv.error_name, kind.group(1) if kind else "?"),
-                      "recorded trace violates %s at event %d (operation %s)" % (tv.error_name, line, opline),
-                      {"recorded_run": -1, "seed": ctx.seed, "runs": runs, "trace_line": line,
-                       "events": lines[max(0, line - 25):line]})
+        with _lock:
+            ctx.violation("trace-invariant:%s:%s" % (tv.error_name, kind.group(1) if kind else "?"),
+                          "recorded trace violates %s at event %d (operation %s)" % (tv.error_name, line, opline),
+                          {"recorded_run": -1, "seed": ctx.seed, "runs": runs, "trace_line": line,
+                           "events": lines[max(0, line - 25):line]})
     elif tv.error == "other" or not tv.ok:
         m = re.search(r"TRACE-REJECTED-AT-LINE\", (\d+)", tv.out)
         if not m:
@@ -54,19 +125,18 @@ def record_and_validate(ctx, runs, selftest=False):
         line = int(m.group(1))
         # the code took a step the spec does not predict; no property predicate failed on it (the driver
         # evaluates those itself): drift, reported in the evidence, not a violation
-        ctx.cov["drift"] += 1
-        ctx.notes.append("trace rejected at event %d: %s" % (line, lines[line - 1] if 0 < line <= len(lines) else "?"))
-        ctx.log("DRIFT trace rejected at event %d: %s" % (line, lines[line - 1][:300] if 0 < line <= len(lines) else "?"))
+        with _lock:
+            ctx.cov["drift"] += 1
+            ctx.notes.append("trace rejected at event %d: %s" % (line, lines[line - 1] if 0 < line <= len(lines) else "?"))
+            ctx.log("DRIFT trace rejected at event %d: %s" % (line, lines[line - 1][:300] if 0 < line <= len(lines) else "?"))
     if selftest:
         binding_selftest(ctx, lines)
 
 
 def binding_selftest(ctx, lines):
     """a corrupted log must be rejected (otherwise the trace spec binds nothing: exit 2)"""
-    import json
     # 1. the heads update after the commit (two transactions where the spec has one)
-    c1 = list(lines)
-    done = False
+    c1, done = list(lines), False
     for i in range(2, len(lines) - 1):
         a, b = json.loads(lines[i]), json.loads(lines[i + 1])
         if a.get("name") == "upsert:heads" and b.get("name") == "commit" and json.loads(lines[i - 1]).get("name") == "insert:changes":
@@ -74,8 +144,7 @@ def binding_selftest(ctx, lines):
             done = True
             break
     # 2. one stored change dropped from an observed durable state
-    c2 = list(lines)
-    done2 = False
+    c2, done2 = list(lines), False
     for i, l in enumerate(lines):
         e = json.loads(l)
         if e.get("ev") == "end" and e["res"] == "ok" and len(e["disk"]["stored"]) > 2:
@@ -88,21 +157,27 @@ def binding_selftest(ctx, lines):
             continue
         path = os.path.join(ctx.scratch, "trace-%s.ndjson" % name)
         open(path, "w").write("\n".join(cor) + "\n")
-        tv = ctx.tlc("persist", "PersistTrace", "PersistTrace.cfg", workers=1, env={"VERIF_TRACE": path},
-                     timeout=1200, count=False, name="binding-selftest " + name)
+        tv = ptlc(ctx, "binding-selftest " + name, "PersistTrace", "PersistTrace.cfg", env={"VERIF_TRACE": path}, timeout=1200)
         if "TRACE-REJECTED-AT-LINE" not in tv.out and tv.error != "invariant":
             raise broken("binding self-test: the corrupted trace (%s) was accepted" % name)
     ctx.cov["binding_selftest"] = "corrupted traces rejected"
 
 
+def record(ctx, runs):
+    trace = os.path.join(ctx.scratch, "persist-trace.ndjson")
+    rep = ctx.go_test("./persist", run="TestRecord$", env={"VERIF_TRACE_OUT": trace, "VERIF_RUNS": runs}, timeout=1500)
+    ctx.cov["trace_events_validated"] = rep["extra"].get("trace_events", 0)
+    return trace
+
+
 def run(ctx):
     thorough = ctx.tier == "thorough"
+    runs = 200 if thorough else 20
     if ctx.replay:
-        import json
         rp = (json.load(open(ctx.replay)).get("replay") or {})
         if "recorded_run" in rp:
             ctx.seed = int(rp.get("seed", ctx.seed))
-            record_and_validate(ctx, int(rp.get("runs", 200 if thorough else 30)))
+            validate_trace(ctx, record(ctx, int(rp.get("runs", runs))), runs, False)
         else:
             ctx.go_test("./persist", run="TestReplay$", timeout=600)
         return
@@ -114,45 +189,72 @@ def run(ctx):
         ctx.cov["states"] = ctx.cov["transitions"] = 1
         return
 
+    emit = os.path.join(ctx.scratch, "emit")
+    os.makedirs(emit)
+    jobs = []   # (name, thunk)
     # 1. the design: repaired model, exhaustive
-    ctx.tlc_expect_ok("persist", "Persist", "Persist_mc.cfg", coverage=thorough, timeout=1500, workers=workers)
+    jobs.append(("mc", lambda: expect_ok(ptlc(ctx, "persist/Persist:Persist_mc.cfg", "Persist", "Persist_mc.cfg", workers=4,
+                                              coverage=thorough, count=True), "Persist_mc", thorough)))
     if thorough:
-        # two faults in one behaviour (error during the retry, crash after an error, ...)
-        ctx.tlc_expect_ok("persist", "Persist", "Persist_mc_f2.cfg", timeout=3000, workers=workers)
-        ctx.tlc_expect_ok("persist", "Persist", "Persist_mc_t.cfg", timeout=6000, workers=workers, heap="12g")
-
+        # two faults in one behaviour (error during the retry, crash after an error, ...); a larger universe
+        jobs.append(("mc_f2", lambda: expect_ok(ptlc(ctx, "persist/Persist:Persist_mc_f2.cfg", "Persist", "Persist_mc_f2.cfg",
+                                                     workers=4, count=True, timeout=3000), "Persist_mc_f2")))
+        jobs.append(("mc_t", lambda: expect_ok(ptlc(ctx, "persist/Persist:Persist_mc_t.cfg", "Persist", "Persist_mc_t.cfg",
+                                                    workers=8, count=True, timeout=7000, heap="16g"), "Persist_mc_t")))
+        jobs.append(("fix_notify", lambda: expect_ok(ptlc(ctx, "persist/Persist:Persist_fix_NotifyAfterCommit.cfg", "Persist",
+                                                          "Persist_fix_NotifyAfterCommit.cfg", workers=2), "fix_NotifyAfterCommit")))
     # 2. every deviation is still visible to TLC (sensitivity of the model, not a verdict on the code)
     devs = DEVIATIONS if thorough else [DEVIATIONS[(ctx.seed + k) % len(DEVIATIONS)] for k in (0, 3)]
     caught = {}
-    for d in devs:
-        r = ctx.tlc("persist", "Persist", "Persist_dev_%s.cfg" % d, timeout=900, workers=4, count=False,
-                    name="deviation %s" % d)
+
+    def dev(d):
+        r = ptlc(ctx, "deviation %s" % d, "Persist", "Persist_dev_%s.cfg" % d, workers=2, timeout=900)
         if r.timed_out or r.error != "invariant":
             raise broken("deviation %s is not caught by the model any more (TLC: %s %s)" % (d, r.error, r.error_name))
         caught[d] = r.error_name
+    for d in devs:
+        jobs.append(("dev-" + d, lambda d=d: dev(d)))
+    # 3a. behaviour generation: two small universes in the quick tier (2 trees x 1 change x 1 ACL record: creation,
+    #     deferred creation, ACL, delete; 1 tree x 2 changes: batches, snapshots, reduction, rebuild), one larger
+    #     universe in the thorough tier
+    gens = [("PersistGen_t.cfg", "t")] if thorough else [("PersistGen_q.cfg", "q"), ("PersistGen_q2.cfg", "q2")]
+    for cfg, tag in gens:
+        d = os.path.join(emit, tag)
+        os.makedirs(d)
+        jobs.append(("gen-" + tag, lambda cfg=cfg, d=d: expect_ok(
+            ptlc(ctx, "persist/PersistGen:" + cfg, "PersistGen", cfg, workers=1, env={"VERIF_EMIT_DIR": d},
+                 timeout=5000, heap="12g" if thorough else None), cfg)))
+    # 5a. the recorded run of the real code (Go) also runs meanwhile; its validation follows
+    jobs.append(("record", lambda: validate_trace(ctx, record(ctx, runs), runs, thorough)))
+
+    errors = []
+    with ThreadPoolExecutor(max_workers=len(jobs)) as ex:
+        futs = {name: ex.submit(th) for name, th in jobs}
+        for name, f in futs.items():
+            try:
+                f.result()
+            except Exception as e:  # noqa - all jobs are awaited, the first error is raised below
+                errors.append((name, e))
+    if errors:
+        raise errors[0][1]
     ctx.cov["deviations_caught_by_tlc"] = caught
 
-    # 3. spec -> code and code -> spec: behaviours replayed behind the proxy database
-    emit = os.path.join(ctx.scratch, "emit")
-    os.makedirs(emit)
-    ctx.tlc_expect_ok("persist", "PersistGen", "PersistGen_t.cfg" if thorough else "PersistGen_q.cfg",
-                      workers=1, env={"VERIF_EMIT_DIR": emit}, timeout=3000, count=False, heap="8g" if thorough else None)
-    n = len(os.listdir(emit))
-    if n == 0:
-        raise broken("no behaviours emitted")
-    ctx.cov["behaviours_emitted"] = n
-    env = {"VERIF_BEHAVIOURS": emit, "VERIF_WORKERS": workers}
-    if not thorough:
-        env["VERIF_MAX_BEHAVIOURS"] = 450
-    else:
-        env["VERIF_MAX_BEHAVIOURS"] = 4500
-    ctx.go_test("./persist", run="TestReplay$", env=env, timeout=3000)
-    # (4. the same-handle retry of space creation runs at the end of TestReplay)
-
-    # 5. code -> spec beyond the model-checked bounds: recorded random runs, validated by PersistTrace.tla
-    record_and_validate(ctx, 200 if thorough else 20, selftest=thorough)
+    # 3b. spec -> code and code -> spec: behaviours replayed behind the proxy database
+    total, dirs, limits = 0, [], []
+    for _, tag in gens:
+        d = os.path.join(emit, tag)
+        n = len(os.listdir(d))
+        if n == 0:
+            raise broken("no behaviours emitted (%s)" % tag)
+        total += n
+        dirs.append(d)
+        limits.append(str(6000 if thorough else (250 if tag == "q" else 200)))
+    ctx.go_test("./persist", run="TestReplay$", timeout=4000,
+                env={"VERIF_BEHAVIOURS": os.pathsep.join(dirs), "VERIF_WORKERS": workers,
+                     "VERIF_MAX_BEHAVIOURS": os.pathsep.join(limits)})
+    ctx.cov["behaviours_emitted"] = total
 
     ctx.assume("SQLite / any-store commit a transaction atomically and recover a copied db + wal + shm file set to the last committed state")
     ctx.assume("an injected Commit error means nothing was committed (the proxy rolls the real transaction back)")
     ctx.assume("faults are injected into mutating storage calls only (begin, savepoint, insert, upsert, delete, create collection/index, commit); read errors are not enumerated")
-    ctx.assume("head-storage observers (head sync) are not attached to the storage under test")
+    ctx.assume("one account, unencrypted changes, valid attachable payloads; the caller holds the tree / ACL lock (no concurrent use of one object)")
